@@ -163,9 +163,13 @@ class LokiStringifyMapper(StringifyMapper):
         # parenthesis around products nested in a product, which can cause
         # round-off deviations for agressively optimising compilers
         kwargs['force_parens_around'] = (pmbl.FloorDiv, pmbl.Remainder)
-        return self.parenthesize_if_needed(
-                self.join_rec("*", expr.children, PREC_PRODUCT, *args, **kwargs),
-                enclosing_prec, PREC_PRODUCT)
+        first = self.rec_with_force_parens_around(expr.children[0], PREC_PRODUCT, *args, **kwargs)
+        # A quotient that is not the leading factor needs brackets: ``a*(b / c)`` is not ``a*b / c``
+        kwargs['force_parens_around'] = (pmbl.Quotient, pmbl.FloorDiv, pmbl.Remainder)
+        factors = [first] + [
+            self.rec_with_force_parens_around(ch, PREC_PRODUCT, *args, **kwargs) for ch in expr.children[1:]
+        ]
+        return self.parenthesize_if_needed(self.join('*', factors), enclosing_prec, PREC_PRODUCT)
 
     def map_quotient(self, expr, enclosing_prec, *args, **kwargs):
         # Similar to products we drop the conservative parenthesis around products and
